@@ -1,24 +1,31 @@
 // Command harness executes the line protocol of /verif/PROTOCOL.md against the real code.
 //
 //	harness exec < ops > impl.obs
+//	harness oracle < ops > findings.jsonl     (property oracles of package oracle; observations are not printed)
 package main
 
 import (
 	"bufio"
+	"encoding/json"
 	"fmt"
 	"io"
 	"os"
 	"runtime/pprof"
 
+	"verifharness/oracle"
 	"verifharness/world"
 )
 
 func usage() {
-	fmt.Fprintln(os.Stderr, "usage: harness exec < ops > observations")
+	fmt.Fprintln(os.Stderr, "usage: harness exec < ops > observations\n       harness oracle < ops > findings.jsonl")
 	os.Exit(2)
 }
 
 func main() {
+	if len(os.Args) == 2 && os.Args[1] == "oracle" {
+		runOracle(os.Stdin, os.Stdout)
+		os.Exit(0)
+	}
 	if len(os.Args) != 2 || os.Args[1] != "exec" {
 		usage()
 	}
@@ -74,6 +81,33 @@ func run(in io.Reader, out io.Writer) int {
 		}
 		if err != nil { // last line without newline
 			return 0
+		}
+	}
+}
+
+// runOracle feeds the ops through a world and the property checker and prints one JSON object per
+// finding. The exit code is 0 whatever is found.
+func runOracle(in io.Reader, out io.Writer) {
+	r := bufio.NewReaderSize(in, 1<<20)
+	bw := bufio.NewWriterSize(out, 1<<16)
+	defer bw.Flush()
+
+	s := oracle.NewSession()
+	printed := 0
+	for {
+		line, err := r.ReadString('\n')
+		if err != nil && line == "" {
+			break
+		}
+		s.Exec(line)
+		fs := s.C.Findings()
+		for ; printed < len(fs); printed++ {
+			b, _ := json.Marshal(fs[printed])
+			bw.Write(b)
+			bw.WriteByte('\n')
+		}
+		if err != nil {
+			break
 		}
 	}
 }
